@@ -78,6 +78,8 @@ PStep(ev) ==
                    /\ (o.others[z].accepted \/ o.others[z].untouched \/ Report("C14", "failed_update_output_modified_map", ev, q, z))
        [] ev.op = "update" ->
             /\ others(ev.i)
+            \* the descriptor offered is the one the input's utxo pays to: update must accept it
+            /\ (ev.res = "ok" \/ Report("C14", "update_rejects_own_descriptor", ev, ev.i, ev.res))
             /\ (ev.res # "ok" \/ cur[ev.i].final \/
                 /\ (st[ev.i].upd \/ ~NeedsUpd(descs[ev.i]) \/ Report("C14", "update_recorded_nothing", ev, ev.i, ""))
                 /\ (st[ev.i].upd_commit_ok \/ Report("C14", "update_scripts_inconsistent_with_output", ev, ev.i, ""))
